@@ -325,6 +325,8 @@ _dispatch_transform_to_utf16(dispatch_data_t data, int32_t byteOrder)
 		} else if (skip > 0) {
 			src += skip;
 			size -= skip;
+			// `i` now counts from the first unskipped byte
+			offset += skip;
 			skip = 0;
 		}
 
@@ -431,6 +433,8 @@ _dispatch_transform_from_utf16(dispatch_data_t data, int32_t byteOrder)
 			src = (uint16_t *)(((uint8_t *)src) + skip);
 			size -= skip;
 			max = (size / 2);
+			// `i` now counts from the first unskipped byte
+			offset += skip;
 			skip = 0;
 		}
 
